@@ -76,6 +76,13 @@ class UnmanagedBSE(ManagedBSE):
             st1.gset('build_log', st1.log)
             st1.log = (('init', ctor),)
             res.append(st1)
+        if s.cfg.get('prefix'):
+            saved = s.M.task_mode; s.M.task_mode = True
+            try:
+                for a in s.cfg['prefix']:
+                    res = [y for x in res if x.gget('pool') is not None for y in s.apply(x, tuple(a))]
+            finally:
+                s.M.task_mode = saved
         return res
 
     def tv(s, st, v, name):
@@ -226,7 +233,8 @@ class UnmanagedBSE(ManagedBSE):
             res = data['res'] if result[0] == 'ok' else result
             if data.get('ret') and result[0] == 'ok':
                 oid = data['oid']; w = dict(st.gget('where'))
-                w[oid] = 'destroyed' if st.gget('objs')[oid]['destroyed'] else 'pool'; st.gset('where', w)
+                if w.get(oid) == 'returning':
+                    w[oid] = 'destroyed' if st.gget('objs')[oid]['destroyed'] else 'pool'; st.gset('where', w)
             return s.end_op(st, t, a, res, **{k: v for k, v in data.items() if k not in ('res', 'ret')})
         if phase == 'taking':
             if result[0] != 'ok': return s.end_op(st, t, a, result, oid=data['oid'])
@@ -241,7 +249,8 @@ class UnmanagedBSE(ManagedBSE):
     def add_result(s, st, t, a, r, oid):
         w = dict(st.gget('where'))
         if r.variant == 'Ok':
-            w[oid] = 'pool' if not st.gget('objs')[oid]['destroyed'] else 'destroyed'; st.gset('where', w)
+            if w.get(oid) == 'adding':
+                w[oid] = 'pool' if not st.gget('objs')[oid]['destroyed'] else 'destroyed'; st.gset('where', w)
             return s.end_op(st, t, a, ('ok', 'added'), oid=oid)
         tup = payload(r); back = tup.f[0]; e = tup.f[1]
         bid = s.obj_id(st, back)
